@@ -1,12 +1,24 @@
 import Casket.Proofs.AutoHTTPS
 /-
-Helper lemmas for Props/C15.lean, part: makePlaintextRedirects (loop invariant), the per-site stages, the site-set verdict.  Core Lean only.
+Helper lemmas for Props/C15.lean, part: makePlaintextRedirectsP P (loop invariant), the per-site stages, the site-set verdict.  Core Lean only.
 -/
 set_option linter.unusedSimpArgs false
 namespace Casket.AutoHTTPS
 open Casket.Generated Casket.AutoHTTPSSpec
 
-/-! ## makePlaintextRedirects -/
+/-- what the theorems about the pipelineP P need of the configured ports: both non-empty, different from each other, and the
+HTTP port is not the default port (a port-less site is put on the default port only after the redirects are made) -/
+structure Ports.ok (P : Ports) : Prop where
+  httpNe : P.http ≠ []
+  httpsNe : P.https ≠ []
+  differ : P.http ≠ P.https
+  httpNotDefault : P.http ≠ defaultPort
+
+theorem Ports.std_ok : Ports.std.ok := ⟨by decide, by decide, by decide, by decide⟩
+
+variable {P : Ports}
+
+/-! ## makePlaintextRedirectsP P -/
 
 /-- some OTHER site of the list has the host of site `idx` and port `p` -/
 def OtherHas (all : List Site) (idx : Nat) (this : Site) (p : Bytes) : Prop :=
@@ -40,12 +52,12 @@ theorem hhop_false_iff (all : List Site) (idx : Nat) (this : Site) (p : Bytes) (
   cases b <;> simp
 
 /-- some OTHER site of the list has the host of site `idx`, port `p`, and wants a redirect itself -/
-def OtherWants (all : List Site) (idx : Nat) (this : Site) (p : Bytes) : Prop :=
-  ∃ j o, j ≠ idx ∧ all[j]? = some o ∧ o.host = this.host ∧ o.port = p ∧ wantsRedirect o = true
+def OtherWants (P : Ports) (all : List Site) (idx : Nat) (this : Site) (p : Bytes) : Prop :=
+  ∃ j o, j ≠ idx ∧ all[j]? = some o ∧ o.host = this.host ∧ o.port = p ∧ wantsRedirectP P o = true
 
 theorem hhrs_true_iff (all : List Site) (idx : Nat) (this : Site) (p : Bytes) (h : all[idx]? = some this) :
-    hostHasRedirectingSiteOnPort all idx p = some true ↔ OtherWants all idx this p := by
-  unfold hostHasRedirectingSiteOnPort OtherWants
+    hostHasRedirectingSiteOnPortP P all idx p = some true ↔ OtherWants P all idx this p := by
+  unfold hostHasRedirectingSiteOnPortP OtherWants
   simp only [h, Option.some.injEq, List.any_eq_true, List.mem_range, Bool.and_eq_true, bne_iff_ne, ne_eq]
   constructor
   · rintro ⟨j, hj, hne, hm⟩
@@ -62,52 +74,52 @@ theorem hhrs_true_iff (all : List Site) (idx : Nat) (this : Site) (p : Bytes) (h
     exact ⟨j, hj, hne, by simp [ho, hh, hp, hw]⟩
 
 theorem hhrs_false_iff (all : List Site) (idx : Nat) (this : Site) (p : Bytes) (h : all[idx]? = some this) :
-    (hostHasRedirectingSiteOnPort all idx p == some false) = true ↔ ¬ OtherWants all idx this p := by
+    (hostHasRedirectingSiteOnPortP P all idx p == some false) = true ↔ ¬ OtherWants P all idx this p := by
   rw [← hhrs_true_iff all idx this p h]
-  unfold hostHasRedirectingSiteOnPort
+  unfold hostHasRedirectingSiteOnPortP
   simp only [h]
   generalize ((List.range all.length).any fun i => i != idx && match all[i]? with
-    | some o => o.host == this.host && o.port == p && wantsRedirect o | none => false) = b
+    | some o => o.host == this.host && o.port == p && wantsRedirectP P o | none => false) = b
   cases b <;> simp
 
 /-- the redirect sites synthesised while the loop runs over `todo` (index `i` onwards), `e` the declared sites,
 `rs` the redirect sites so far -/
-def redirsGo (e : List Site) : List Site → Nat → List Site → List Site
+def redirsGo (P : Ports) (e : List Site) : List Site → Nat → List Site → List Site
   | [], _, rs => rs
   | c :: todo, i, rs =>
-    let want := wantsRedirect c &&
-      hostHasOtherPort (e ++ rs) i httpPort == some false &&
-      (c.port == httpsPort || hostHasRedirectingSiteOnPort (e ++ rs) i httpsPort == some false)
-    redirsGo e todo (i + 1) (if want then rs ++ [redirPlaintextHost c] else rs)
+    let want := wantsRedirectP P c &&
+      hostHasOtherPort (e ++ rs) i P.http == some false &&
+      (c.port == P.https || hostHasRedirectingSiteOnPortP P (e ++ rs) i P.https == some false)
+    redirsGo P e todo (i + 1) (if want then rs ++ [redirPlaintextHostP P c] else rs)
 
 theorem redirectsGo_eq (e : List Site) : ∀ (todo : List Site) (i : Nat) (rs : List Site),
-    redirectsGo todo i (e ++ rs) = e ++ redirsGo e todo i rs := by
+    redirectsGoP P todo i (e ++ rs) = e ++ redirsGo P e todo i rs := by
   intro todo
   induction todo with
   | nil => intro i rs; rfl
   | cons c todo ih =>
     intro i rs
-    unfold redirectsGo redirsGo
+    unfold redirectsGoP redirsGo
     simp only
     split
     · rw [List.append_assoc]; exact ih _ _
     · exact ih _ _
 
-/-- makePlaintextRedirects returns the declared sites unchanged, followed by the synthesised ones -/
-theorem makePlaintextRedirects_eq (e : List Site) : makePlaintextRedirects e = e ++ redirsGo e e 0 [] := by
-  unfold makePlaintextRedirects
-  have := redirectsGo_eq e e 0 []
+/-- makePlaintextRedirectsP P returns the declared sites unchanged, followed by the synthesised ones -/
+theorem makePlaintextRedirects_eq (e : List Site) : makePlaintextRedirectsP P e = e ++ redirsGo P e e 0 [] := by
+  unfold makePlaintextRedirectsP
+  have := redirectsGo_eq (P := P) e e 0 []
   simpa using this
 
 /-- no declared site has host `h` on the HTTP port -/
-def NoPlain (e : List Site) (h : Bytes) : Prop := ∀ c ∈ e, ¬(c.host = h ∧ c.port = httpPort)
+def NoPlain (P : Ports) (e : List Site) (h : Bytes) : Prop := ∀ c ∈ e, ¬(c.host = h ∧ c.port = P.http)
 
 /-- some synthesised site serves host `h` -/
 def Covered (rs : List Site) (h : Bytes) : Prop := ∃ r ∈ rs, r.host = h
 
 /-- a site of the same host on the HTTPS port that wants a redirect is still to be visited -/
-def Pending (e : List Site) (i : Nat) (c : Site) : Prop :=
-  ∃ j c', i ≤ j ∧ e[j]? = some c' ∧ c'.host = c.host ∧ c'.port = httpsPort ∧ wantsRedirect c' = true
+def Pending (P : Ports) (e : List Site) (i : Nat) (c : Site) : Prop :=
+  ∃ j c', i ≤ j ∧ e[j]? = some c' ∧ c'.host = c.host ∧ c'.port = P.https ∧ wantsRedirectP P c' = true
 
 theorem otherHas_append (e rs : List Site) (i : Nat) (c : Site) (p : Bytes) (hi : i < e.length) :
     OtherHas (e ++ rs) i c p ↔
@@ -131,37 +143,35 @@ theorem otherHas_append (e rs : List Site) (i : Nat) (c : Site) (p : Bytes) (hi 
       rw [List.getElem?_append_right (by omega)]
       simp [hm, hrm]
 
-theorem redir_host (c : Site) : (redirPlaintextHost c).host = c.host := rfl
-theorem redir_port (c : Site) : (redirPlaintextHost c).port = httpPort := rfl
+theorem redir_host (c : Site) : (redirPlaintextHostP P c).host = c.host := rfl
+theorem redir_port (c : Site) : (redirPlaintextHostP P c).port = P.http := rfl
 
-structure Inv (e : List Site) (i : Nat) (rs : List Site) : Prop where
-  sound : ∀ r ∈ rs, ∃ k c, k < i ∧ e[k]? = some c ∧ wantsRedirect c = true ∧ r = redirPlaintextHost c ∧ NoPlain e c.host
+structure Inv (P : Ports) (e : List Site) (i : Nat) (rs : List Site) : Prop where
+  sound : ∀ r ∈ rs, ∃ k c, k < i ∧ e[k]? = some c ∧ wantsRedirectP P c = true ∧ r = redirPlaintextHostP P c ∧ NoPlain P e c.host
   nodup : (rs.map (·.host)).Nodup
-  complete : ∀ k c, k < i → e[k]? = some c → wantsRedirect c = true → NoPlain e c.host →
-    Covered rs c.host ∨ Pending e i c
+  complete : ∀ k c, k < i → e[k]? = some c → wantsRedirectP P c = true → NoPlain P e c.host →
+    Covered rs c.host ∨ Pending P e i c
 
-theorem ports_differ : httpPort ≠ httpsPort := by decide
-
-theorem inv_step (e : List Site) (i : Nat) (rs : List Site) (c : Site) (hc : e[i]? = some c) (inv : Inv e i rs) :
-    Inv e (i + 1) (if (wantsRedirect c &&
-      hostHasOtherPort (e ++ rs) i httpPort == some false &&
-      (c.port == httpsPort || hostHasRedirectingSiteOnPort (e ++ rs) i httpsPort == some false)) = true
-      then rs ++ [redirPlaintextHost c] else rs) := by
+theorem inv_step (hP : P.ok) (e : List Site) (i : Nat) (rs : List Site) (c : Site) (hc : e[i]? = some c) (inv : Inv P e i rs) :
+    Inv P e (i + 1) (if (wantsRedirectP P c &&
+      hostHasOtherPort (e ++ rs) i P.http == some false &&
+      (c.port == P.https || hostHasRedirectingSiteOnPortP P (e ++ rs) i P.https == some false)) = true
+      then rs ++ [redirPlaintextHostP P c] else rs) := by
   have hi : i < e.length := by
     rcases Nat.lt_or_ge i e.length with h | h
     · exact h
     · rw [List.getElem?_eq_none h] at hc; cases hc
   have hci : (e ++ rs)[i]? = some c := by rw [List.getElem?_append_left hi]; exact hc
-  have hrsport : ∀ r ∈ rs, r.port = httpPort := by
+  have hrsport : ∀ r ∈ rs, r.port = P.http := by
     intro r hr
     obtain ⟨k, c', _, _, _, hrc, _⟩ := inv.sound r hr
     rw [hrc]; rfl
   -- the two tests as propositions
-  have h80 := hhop_false_iff (e ++ rs) i c httpPort hci
-  rw [otherHas_append e rs i c httpPort hi] at h80
-  have h443' : (hostHasRedirectingSiteOnPort (e ++ rs) i httpsPort == some false) = true ↔
-      ¬ ∃ j c', j ≠ i ∧ e[j]? = some c' ∧ c'.host = c.host ∧ c'.port = httpsPort ∧ wantsRedirect c' = true := by
-    rw [hhrs_false_iff (e ++ rs) i c httpsPort hci]
+  have h80 := hhop_false_iff (e ++ rs) i c P.http hci
+  rw [otherHas_append e rs i c P.http hi] at h80
+  have h443' : (hostHasRedirectingSiteOnPortP P (e ++ rs) i P.https == some false) = true ↔
+      ¬ ∃ j c', j ≠ i ∧ e[j]? = some c' ∧ c'.host = c.host ∧ c'.port = P.https ∧ wantsRedirectP P c' = true := by
+    rw [hhrs_false_iff (e ++ rs) i c P.https hci]
     unfold OtherWants
     constructor
     · intro h ⟨j, c', hne, ho, hh, hp, hw⟩
@@ -176,21 +186,21 @@ theorem inv_step (e : List Site) (i : Nat) (rs : List Site) (c : Site) (hc : e[i
         exact h ⟨j, o, hne, ho, hh, hp, hw⟩
       · rw [List.getElem?_append_right hj] at ho
         have := hrsport o (List.mem_of_getElem? ho)
-        rw [this] at hp; exact ports_differ hp
-  generalize hw : (wantsRedirect c &&
-      hostHasOtherPort (e ++ rs) i httpPort == some false &&
-      (c.port == httpsPort || hostHasRedirectingSiteOnPort (e ++ rs) i httpsPort == some false)) = want
+        rw [this] at hp; exact hP.differ hp
+  generalize hw : (wantsRedirectP P c &&
+      hostHasOtherPort (e ++ rs) i P.http == some false &&
+      (c.port == P.https || hostHasRedirectingSiteOnPortP P (e ++ rs) i P.https == some false)) = want
   cases want with
   | true =>
     simp only [if_true]
     simp only [Bool.and_eq_true, Bool.or_eq_true] at hw
     obtain ⟨⟨hwants, hno80⟩, _⟩ := hw
     have hno80' := h80.mp hno80
-    have hcport : c.port ≠ httpPort := by
-      unfold wantsRedirect at hwants
+    have hcport : c.port ≠ P.http := by
+      unfold wantsRedirectP at hwants
       simp only [Bool.and_eq_true, bne_iff_ne, ne_eq] at hwants
       exact hwants.2
-    have hnoplain : NoPlain e c.host := by
+    have hnoplain : NoPlain P e c.host := by
       intro c' hc' ⟨hh, hp⟩
       obtain ⟨j, hj, hje⟩ := List.getElem_of_mem hc'
       by_cases hji : j = i
@@ -216,14 +226,14 @@ theorem inv_step (e : List Site) (i : Nat) (rs : List Site) (c : Site) (hc : e[i
       by_cases hki : k = i
       · subst hki
         rw [hc] at hck; cases hck
-        exact Or.inl ⟨redirPlaintextHost c, by simp, rfl⟩
+        exact Or.inl ⟨redirPlaintextHostP P c, by simp, rfl⟩
       · rcases inv.complete k c' (by omega) hck hwk hnp with hcov | ⟨j, cj, hij, hcj, hhj, hpj, hwj⟩
         · obtain ⟨r, hr, hrh⟩ := hcov
           exact Or.inl ⟨r, by simp [hr], hrh⟩
         · by_cases hji : j = i
           · subst hji
             rw [hc] at hcj; cases hcj
-            exact Or.inl ⟨redirPlaintextHost c, by simp, hhj⟩
+            exact Or.inl ⟨redirPlaintextHostP P c, by simp, hhj⟩
           · exact Or.inr ⟨j, cj, by omega, hcj, hhj, hpj, hwj⟩
   | false =>
     simp only [Bool.false_eq_true, if_false]
@@ -239,19 +249,19 @@ theorem inv_step (e : List Site) (i : Nat) (rs : List Site) (c : Site) (hc : e[i
         simp only [hwk, Bool.true_and, Bool.and_eq_false_iff, Bool.or_eq_false_iff] at hw
         rcases hw with hw | ⟨hp443, hw⟩
         · -- a site with this host sits on port 80: a redirect site made earlier
-          have : ¬ ¬ ((∃ j c', j ≠ k ∧ e[j]? = some c' ∧ c'.host = c.host ∧ c'.port = httpPort) ∨
-              ∃ r ∈ rs, r.host = c.host ∧ r.port = httpPort) := by
+          have : ¬ ¬ ((∃ j c', j ≠ k ∧ e[j]? = some c' ∧ c'.host = c.host ∧ c'.port = P.http) ∨
+              ∃ r ∈ rs, r.host = c.host ∧ r.port = P.http) := by
             intro hn; have := h80.mpr hn; rw [this] at hw; cases hw
           rcases Classical.not_not.mp this with ⟨j, cj, _, hcj, hhj, hpj⟩ | ⟨r, hr, hrh, _⟩
           · exact absurd ⟨hhj, hpj⟩ (hnp cj (List.mem_of_getElem? hcj))
           · exact Or.inl ⟨r, hr, hrh⟩
         · -- another site of the host sits on the HTTPS port
-          have hcp : c.port ≠ httpsPort := by simpa using hp443
-          have : ¬ ¬ ∃ j c', j ≠ k ∧ e[j]? = some c' ∧ c'.host = c.host ∧ c'.port = httpsPort ∧ wantsRedirect c' = true := by
+          have hcp : c.port ≠ P.https := by simpa using hp443
+          have : ¬ ¬ ∃ j c', j ≠ k ∧ e[j]? = some c' ∧ c'.host = c.host ∧ c'.port = P.https ∧ wantsRedirectP P c' = true := by
             intro hn; have := h443'.mpr hn; rw [this] at hw; cases hw
           obtain ⟨j, cj, hjk, hcj, hhj, hpj, hwj⟩ := Classical.not_not.mp this
           rcases Nat.lt_or_ge j k with hlt | hge
-          · have hnpj : NoPlain e cj.host := by rw [hhj]; exact hnp
+          · have hnpj : NoPlain P e cj.host := by rw [hhj]; exact hnp
             rcases inv.complete j cj hlt hcj hwj hnpj with hcov | ⟨j2, c2, h1, h2, h3, h4, h5⟩
             · obtain ⟨r, hr, hrh⟩ := hcov
               exact Or.inl ⟨r, hr, by rw [hrh, hhj]⟩
@@ -267,25 +277,25 @@ theorem inv_step (e : List Site) (i : Nat) (rs : List Site) (c : Site) (hc : e[i
             rw [hc] at hcj; cases hcj
             simp only [hwj, Bool.true_and, Bool.and_eq_false_iff, Bool.or_eq_false_iff] at hw
             rcases hw with hw | ⟨hp443, _⟩
-            · have : ¬ ¬ ((∃ j' c', j' ≠ j ∧ e[j']? = some c' ∧ c'.host = c.host ∧ c'.port = httpPort) ∨
-                  ∃ r ∈ rs, r.host = c.host ∧ r.port = httpPort) := by
+            · have : ¬ ¬ ((∃ j' c', j' ≠ j ∧ e[j']? = some c' ∧ c'.host = c.host ∧ c'.port = P.http) ∨
+                  ∃ r ∈ rs, r.host = c.host ∧ r.port = P.http) := by
                 intro hn; have := h80.mpr hn; rw [this] at hw; cases hw
               rcases Classical.not_not.mp this with ⟨j', cj', _, hcj', hhj', hpj'⟩ | ⟨r, hr, hrh, _⟩
               · exact absurd ⟨by rw [hhj', hhj], hpj'⟩ (hnp cj' (List.mem_of_getElem? hcj'))
               · exact Or.inl ⟨r, hr, by rw [hrh, hhj]⟩
-            · have : c.port = httpsPort := hpj
+            · have : c.port = P.https := hpj
               simp [this] at hp443
           · exact Or.inr ⟨j, cj, by omega, hcj, hhj, hpj, hwj⟩
 
-theorem inv_loop (e : List Site) : ∀ (todo : List Site) (i : Nat) (rs : List Site),
-    (∀ m, todo[m]? = e[i + m]?) → Inv e i rs → Inv e (i + todo.length) (redirsGo e todo i rs) := by
+theorem inv_loop (hP : P.ok) (e : List Site) : ∀ (todo : List Site) (i : Nat) (rs : List Site),
+    (∀ m, todo[m]? = e[i + m]?) → Inv P e i rs → Inv P e (i + todo.length) (redirsGo P e todo i rs) := by
   intro todo
   induction todo with
   | nil => intro i rs _ inv; simpa [redirsGo] using inv
   | cons c todo ih =>
     intro i rs hidx inv
     have hc : e[i]? = some c := by have := hidx 0; simpa using this.symm
-    have hstep := inv_step e i rs c hc inv
+    have hstep := inv_step hP e i rs c hc inv
     unfold redirsGo
     simp only
     have := ih (i + 1) _ (fun m => by have := hidx (m + 1); simp only [List.getElem?_cons_succ] at this; rw [this]; congr 1; omega) hstep
@@ -294,55 +304,58 @@ theorem inv_loop (e : List Site) : ∀ (todo : List Site) (i : Nat) (rs : List S
     rw [harith]
     exact this
 
-theorem inv_final (e : List Site) : Inv e e.length (redirsGo e e 0 []) := by
-  have h0 : Inv e 0 [] := by
+theorem inv_final (hP : P.ok) (e : List Site) : Inv P e e.length (redirsGo P e e 0 []) := by
+  have h0 : Inv P e 0 [] := by
     refine ⟨?_, ?_, ?_⟩
     · intro r hr; cases hr
     · simp
     · intro k c hk; omega
-  have := inv_loop e e 0 [] (fun m => by simp) h0
+  have := inv_loop hP e e 0 [] (fun m => by simp) h0
   simpa using this
 
-/-! ## the per-site stages of the pipeline -/
+/-! ## the per-site stages of the pipelineP P -/
 
-/-- markQualifiedForAutoHTTPS then enableAutoHTTPS, on one site -/
-def stageE (d : Site) : Site := enableOne (markOne d)
+/-- markQualifiedForAutoHTTPS then enableAutoHTTPSP P, on one site -/
+def stageE (P : Ports) (d : Site) : Site := enableOneP P (markOneP P d)
 /-- MakeServers on one site -/
-def stageF (c : Site) : Site := defaultPortOne (makeServersOne c)
+def stageF (P : Ports) (c : Site) : Site := defaultPortOne (makeServersOneP P c)
 
-theorem markOne_fields (d : Site) : (markOne d).host = d.host ∧ (markOne d).port = d.port ∧ (markOne d).scheme = d.scheme ∧
-    (markOne d).enabled = d.enabled ∧ (markOne d).noRedirect = d.noRedirect ∧ (markOne d).manual = d.manual ∧
-    (markOne d).selfSigned = d.selfSigned ∧ (markOne d).onDemand = d.onDemand ∧ (markOne d).hasManager = d.hasManager ∧
-    (markOne d).listen = d.listen ∧ (markOne d).redir = d.redir := by
-  unfold markOne; split <;> simp
+theorem markOne_fields (d : Site) : (markOneP P d).host = d.host ∧ (markOneP P d).port = d.port ∧ (markOneP P d).scheme = d.scheme ∧
+    (markOneP P d).enabled = d.enabled ∧ (markOneP P d).noRedirect = d.noRedirect ∧ (markOneP P d).manual = d.manual ∧
+    (markOneP P d).selfSigned = d.selfSigned ∧ (markOneP P d).onDemand = d.onDemand ∧ (markOneP P d).hasManager = d.hasManager ∧
+    (markOneP P d).listen = d.listen ∧ (markOneP P d).redir = d.redir := by
+  unfold markOneP; split <;> simp
 
-theorem enableOne_fields (c : Site) : (enableOne c).host = c.host ∧ (enableOne c).noRedirect = c.noRedirect ∧
-    (enableOne c).manual = c.manual ∧ (enableOne c).selfSigned = c.selfSigned ∧ (enableOne c).onDemand = c.onDemand ∧
-    (enableOne c).hasManager = c.hasManager ∧ (enableOne c).listen = c.listen ∧ (enableOne c).managed = c.managed ∧ (enableOne c).redir = c.redir := by
-  unfold enableOne; split <;> simp
+theorem enableOne_fields (c : Site) : (enableOneP P c).host = c.host ∧ (enableOneP P c).noRedirect = c.noRedirect ∧
+    (enableOneP P c).manual = c.manual ∧ (enableOneP P c).selfSigned = c.selfSigned ∧ (enableOneP P c).onDemand = c.onDemand ∧
+    (enableOneP P c).hasManager = c.hasManager ∧ (enableOneP P c).listen = c.listen ∧ (enableOneP P c).managed = c.managed ∧ (enableOneP P c).redir = c.redir := by
+  unfold enableOneP; split <;> simp
 
-theorem stageF_host (c : Site) : (stageF c).host = c.host := by
-  unfold stageF defaultPortOne makeServersOne
+theorem stageF_host (c : Site) : (stageF P c).host = c.host := by
+  unfold stageF defaultPortOne makeServersOneP
   repeat' split
   all_goals simp
 
-theorem stageF_enabled (c : Site) : (stageF c).enabled = (c.enabled && !(c.port == httpPort || c.scheme == b!"http")) := by
-  unfold stageF defaultPortOne makeServersOne
+theorem stageF_enabled (c : Site) : (stageF P c).enabled = (c.enabled && !(c.port == P.http || c.scheme == b!"http")) := by
+  unfold stageF defaultPortOne makeServersOneP
   cases he : c.enabled
   all_goals simp only [he, Bool.not_false, Bool.not_true, Bool.false_eq_true, if_true, if_false, Bool.false_and, Bool.true_and]
   all_goals repeat' split
   all_goals simp [he]
 
-theorem stageF_noRedirect (c : Site) : (stageF c).noRedirect = c.noRedirect := by
-  unfold stageF defaultPortOne makeServersOne
+theorem stageF_noRedirect (c : Site) : (stageF P c).noRedirect = c.noRedirect := by
+  unfold stageF defaultPortOne makeServersOneP
   repeat' split
   all_goals simp
 
 /-- MakeServers fills in an empty port only: with the HTTPS port or the default port -/
-theorem stageF_port (c : Site) : (stageF c).port =
-    if c.port.isEmpty then (if c.enabled && ((!c.manual && !c.selfSigned) || c.onDemand) then httpsPort else defaultPort) else c.port := by
-  have h443 : httpsPort.isEmpty = false := by decide
-  unfold stageF defaultPortOne makeServersOne
+theorem stageF_port (hP : P.ok) (c : Site) : (stageF P c).port =
+    if c.port.isEmpty then (if c.enabled && ((!c.manual && !c.selfSigned) || c.onDemand) then P.https else defaultPort) else c.port := by
+  have h443 : P.https.isEmpty = false := by
+    have := hP.httpsNe; cases hh : P.https with
+    | nil => exact absurd hh this
+    | cons _ _ => rfl
+  unfold stageF defaultPortOne makeServersOneP
   cases he : c.enabled
   · simp only [Bool.not_false, if_true, Bool.false_and, Bool.false_eq_true, if_false]
     split <;> rfl
@@ -353,230 +366,237 @@ theorem stageF_port (c : Site) : (stageF c).port =
       · simp only [hp, hcnd, Bool.and_false, Bool.false_eq_true, if_false, if_true, Bool.true_and]
     · simp only [hp, Bool.false_and, Bool.false_eq_true, if_false]
 
-theorem stageF_port80 (c : Site) : ((stageF c).port == b!"80") = (c.port == b!"80") := by
-  rw [stageF_port]
+/-- a site ends on the HTTP port exactly if it was on it before MakeServers -/
+theorem stageF_portHTTP (hP : P.ok) (c : Site) : ((stageF P c).port == P.http) = (c.port == P.http) := by
+  rw [stageF_port hP]
   by_cases hp : c.port.isEmpty = true
   · have : c.port = [] := by simpa using hp
     simp only [hp, if_true, this]
-    have h1 : (httpsPort == b!"80") = false := by decide
-    have h2 : (defaultPort == b!"80") = false := by decide
+    have h1 : (P.https == P.http) = false := by
+      rw [beq_eq_false_iff_ne]; exact fun h => hP.differ h.symm
+    have h2 : (defaultPort == P.http) = false := by
+      rw [beq_eq_false_iff_ne]; exact fun h => hP.httpNotDefault h.symm
+    have h3 : (([] : Bytes) == P.http) = false := by
+      rw [beq_eq_false_iff_ne]; exact fun h => hP.httpNe h.symm
     by_cases hc : (c.enabled && (!c.manual && !c.selfSigned || c.onDemand)) = true
-    · simp only [hc, if_true, h1]; rfl
-    · simp only [hc, Bool.false_eq_true, if_false, h2]; rfl
+    · simp [hc, h1, h3]
+    · simp [hc, h2, h3]
   · simp [hp]
 
 /-- a declared site as InspectServerBlocks and the directives leave it: not yet managed, not synthesised, with a
 certmagic manager, and on-demand TLS only comes with a tls directive (which enables TLS) -/
 def Fresh (d : Site) : Prop := d.managed = false ∧ d.hasManager = true ∧ d.redir = none ∧ (d.onDemand = true → d.enabled = true)
 
-theorem wants_eq (d : Site) : obsWantsRedirect (observeSite d) = wantsRedirect (stageE d) := by
-  unfold obsWantsRedirect observeSite wantsRedirect
+theorem wants_eq (d : Site) : obsWantsRedirect (observeSite P d) = wantsRedirectP P (stageE P d) := by
+  unfold obsWantsRedirect observeSite wantsRedirectP
   simp only
-  have hf := stageF_enabled (stageE d)
+  have hf := stageF_enabled (P := P) (stageE P d)
   unfold stageF at hf
   unfold stageE at hf ⊢
   rw [hf]
-  have h1 : (enableOne (markOne d)).noRedirect = d.noRedirect := by
+  have h1 : (enableOneP P (markOneP P d)).noRedirect = d.noRedirect := by
     rw [(enableOne_fields _).2.1, (markOne_fields d).2.2.2.2.1]
   rw [h1]
   simp only [bne]
-  generalize (enableOne (markOne d)).enabled = a
-  generalize ((enableOne (markOne d)).port == httpPort) = b
-  generalize ((enableOne (markOne d)).scheme == b!"http") = c
+  generalize (enableOneP P (markOneP P d)).enabled = a
+  generalize ((enableOneP P (markOneP P d)).port == P.http) = b
+  generalize ((enableOneP P (markOneP P d)).scheme == b!"http") = c
   generalize d.noRedirect = n
   revert a b c n; decide
 
-theorem observe_fHost (d : Site) : (observeSite d).fHost = (stageE d).host := by
+theorem observe_fHost (d : Site) : (observeSite P d).fHost = (stageE P d).host := by
   unfold observeSite; simp only
-  have := stageF_host (stageE d)
+  have := stageF_host (P := P) (stageE P d)
   unfold stageF stageE at this; unfold stageE; exact this
 
-theorem observe_ePort (d : Site) : (observeSite d).ePort = (stageE d).port := rfl
+theorem observe_ePort (d : Site) : (observeSite P d).ePort = (stageE P d).port := rfl
 
-theorem observe_fPort80 (d : Site) : ((observeSite d).fPort == b!"80") = ((stageE d).port == b!"80") := by
+theorem observe_fPortHTTP (hP : P.ok) (d : Site) : ((observeSite P d).fPort == P.http) = ((stageE P d).port == P.http) := by
   unfold observeSite; simp only
-  have := stageF_port80 (stageE d)
+  have := stageF_portHTTP hP (stageE P d)
   unfold stageF stageE at this; unfold stageE; exact this
 
 /-- declared as plain HTTP ⇒ never marked managed, TLS off in the end -/
-theorem http_site_no_tls (d : Site) (hm : d.managed = false) (hd : declaredHTTP d.scheme d.port = true) :
-    (markOne d).managed = false ∧ (stageF (stageE d)).enabled = false := by
-  have hq : qualifies d = false := by
+theorem http_site_no_tls (d : Site) (hm : d.managed = false) (hd : declaredHTTP P d.scheme d.port = true) :
+    (markOneP P d).managed = false ∧ (stageF P (stageE P d)).enabled = false := by
+  have hq : qualifiesP P d = false := by
     unfold declaredHTTP at hd
-    unfold qualifies qualifiesForManagedTLS
-    rw [tables_ports.2.2.1]
+    unfold qualifiesP qualifiesForManagedTLSP
     simp only [Bool.or_eq_true, beq_iff_eq] at hd
     rcases hd with hd | hd
     · simp [hd]
     · simp [hd]
-  have hmark : markOne d = d := by unfold markOne; simp [hq]
+  have hmark : markOneP P d = d := by unfold markOneP; simp [hq]
   refine ⟨by rw [hmark]; exact hm, ?_⟩
-  have he : stageE d = d := by unfold stageE; rw [hmark]; unfold enableOne; simp [hm]
-  rw [he, stageF_enabled, tables_ports.1]
+  have he : stageE P d = d := by unfold stageE; rw [hmark]; unfold enableOneP; simp [hm]
+  rw [he, stageF_enabled]
   unfold declaredHTTP at hd
   simp only [Bool.or_eq_true, beq_iff_eq] at hd
   rcases hd with hd | hd <;> simp [hd]
 
 /-- marked managed ⇒ served over TLS in the end -/
-theorem managed_site_tls (d : Site) (hf : Fresh d) (hm : (markOne d).managed = true) : (stageF (stageE d)).enabled = true := by
+theorem managed_site_tls (hP : P.ok) (d : Site) (hf : Fresh d) (hm : (markOneP P d).managed = true) : (stageF P (stageE P d)).enabled = true := by
   obtain ⟨hm0, hman, _, hod⟩ := hf
-  have hq : qualifies d = true := by
-    unfold markOne at hm
-    by_cases h : qualifies d = true
+  have hq : qualifiesP P d = true := by
+    unfold markOneP at hm
+    by_cases h : qualifiesP P d = true
     · exact h
     · simp [h, hm0] at hm
-  have hmark : markOne d = { d with managed := true } := by unfold markOne; simp [hq]
+  have hmark : markOneP P d = { d with managed := true } := by unfold markOneP; simp [hq]
   have hq' := hq
-  unfold qualifies qualifiesForManagedTLS at hq'
-  rw [tables_ports.2.2.1] at hq'
+  unfold qualifiesP qualifiesForManagedTLSP at hq'
   simp only [Bool.and_eq_true, bne_iff_ne, ne_eq, Bool.not_eq_true'] at hq'
   obtain ⟨⟨_, ⟨_, ⟨⟨⟨_, _⟩, hport⟩, _⟩, _⟩⟩, hscheme⟩ := hq'
-  rw [stageF_enabled, tables_ports.1]
+  rw [stageF_enabled]
   unfold stageE
   rw [hmark]
-  unfold enableOne
+  unfold enableOneP
   cases ho : d.onDemand
   · simp only [hman, ho, Bool.not_true, Bool.or_false, Bool.false_eq_true, if_false, Bool.true_and]
     simp
     split
-    · decide
+    · exact fun h => hP.differ h.symm
     · exact hport
   · simp only [ho, Bool.or_true, if_true]
     have := hod ho
     simp [this, hport, hscheme]
 
-/-- the port captured by the redirect handler is the port the HTTPS site ends up on (written empty when it is 443) -/
-theorem redirect_target_port (c : Site) (hman : c.hasManager = true) (hw : wantsRedirect c = true) :
-    ∃ t, (redirPlaintextHost c).redir = some t ∧ portSuffixOK t (stageF c).port = true := by
+/-- the port captured by the redirect handler is the port the HTTPS site ends up on (written empty when it is the HTTPS port) -/
+theorem redirect_target_port (hP : P.ok) (c : Site) (hman : c.hasManager = true) (hw : wantsRedirectP P c = true) :
+    ∃ t, (redirPlaintextHostP P c).redir = some t ∧ portSuffixOK P t (stageF P c).port = true := by
   have hen : c.enabled = true := by
-    unfold wantsRedirect at hw; simp only [Bool.and_eq_true] at hw; exact hw.1.1.1
+    unfold wantsRedirectP at hw; simp only [Bool.and_eq_true] at hw; exact hw.1.1.1
+  have hse : (([] : Bytes) == P.https) = false := by
+    rw [beq_eq_false_iff_ne]; exact fun h => hP.httpsNe h.symm
   refine ⟨_, rfl, ?_⟩
-  rw [stageF_port]
-  unfold portSuffixOK capturedPort
-  rw [tables_ports.2.1, tables_ports.2.2.2.1]
+  rw [stageF_port hP]
+  unfold portSuffixOK capturedPortP
   simp only [hman, hen, Bool.true_and]
   by_cases hp : c.port.isEmpty = true
   · have hp' : c.port = [] := by simpa using hp
-    cases hm : c.manual <;> cases hs : c.selfSigned <;> cases ho : c.onDemand <;> simp [hp, hp'] <;> decide
+    by_cases hd : (defaultPort == P.https) = true
+    · cases hm : c.manual <;> cases hs : c.selfSigned <;> cases ho : c.onDemand <;> simp [hp, hp', hd, hse]
+    · cases hm : c.manual <;> cases hs : c.selfSigned <;> cases ho : c.onDemand <;> simp [hp, hp', hd, hse]
   · simp only [hp, Bool.false_and, Bool.false_eq_true, if_false]
-    by_cases h443 : (c.port == b!"443") = true
+    by_cases h443 : (c.port == P.https) = true
     · simp [h443]
     · simp [h443]
 
-/-! ## the whole pipeline against the site-set specification -/
+/-! ## the whole pipelineP P against the site-set specification -/
 
-theorem stageF_redir (c : Site) : stageF (redirPlaintextHost c) = redirPlaintextHost c := by
-  have h80 : httpPort.isEmpty = false := by decide
-  unfold stageF defaultPortOne makeServersOne redirPlaintextHost
+theorem stageF_redir (hP : P.ok) (c : Site) : stageF P (redirPlaintextHostP P c) = redirPlaintextHostP P c := by
+  have h80 : P.http.isEmpty = false := by
+    have := hP.httpNe; cases hh : P.http with
+    | nil => exact absurd hh this
+    | cons _ _ => rfl
+  unfold stageF defaultPortOne makeServersOneP redirPlaintextHostP
   simp [h80]
 
-/-- the pipeline = the declared sites, each through its own stages, followed by the synthesised redirect sites -/
-theorem pipeline_eq (ds : List Site) :
-    pipeline ds = ds.map (fun d => stageF (stageE d)) ++ redirsGo (ds.map stageE) (ds.map stageE) 0 [] := by
-  unfold pipeline makeServers enableAutoHTTPS markQualified
+/-- the pipelineP P = the declared sites, each through its own stages, followed by the synthesised redirect sites -/
+theorem pipeline_eq (hP : P.ok) (ds : List Site) :
+    pipelineP P ds = ds.map (fun d => stageF P (stageE P d)) ++ redirsGo P (ds.map (stageE P)) (ds.map (stageE P)) 0 [] := by
+  unfold pipelineP makeServersP enableAutoHTTPSP markQualifiedP
   rw [List.map_map, List.map_map]
-  have he : (enableOne ∘ markOne) = stageE := rfl
-  have hfd : (defaultPortOne ∘ makeServersOne) = stageF := rfl
+  have he : (enableOneP P ∘ markOneP P) = stageE P := rfl
+  have hfd : (defaultPortOne ∘ makeServersOneP P) = stageF P := rfl
   rw [he, hfd, makePlaintextRedirects_eq, List.map_append, List.map_map]
   congr 1
-  have inv := inv_final (ds.map stageE)
-  have : List.map stageF (redirsGo (ds.map stageE) (ds.map stageE) 0 []) =
-      List.map id (redirsGo (ds.map stageE) (ds.map stageE) 0 []) := by
+  have inv := inv_final hP (ds.map (stageE P))
+  have : List.map (stageF P) (redirsGo P (ds.map (stageE P)) (ds.map (stageE P)) 0 []) =
+      List.map id (redirsGo P (ds.map (stageE P)) (ds.map (stageE P)) 0 []) := by
     apply List.map_congr_left
     intro r hr
     obtain ⟨k, c, _, _, _, hrc, _⟩ := inv.sound r hr
-    rw [hrc]; exact stageF_redir c
+    rw [hrc]; exact stageF_redir hP c
   rw [this, List.map_id]
 
-theorem chk_qualify (ds : List Site) (hf : ∀ d ∈ ds, Fresh d) : (ds.map observeSite).find? offQualify = none := by
+theorem chk_qualify (ds : List Site) (hf : ∀ d ∈ ds, Fresh d) : (ds.map (observeSite P)).find? (offQualify P) = none := by
   rw [List.find?_eq_none]
   intro o ho
   obtain ⟨d, hd, rfl⟩ := List.mem_map.mp ho
   unfold offQualify
   by_cases hs : (hostInScope d.host && bindInScope d.listen) = true
   · simp only [Bool.and_eq_true] at hs
-    have : (observeSite d).managed = AutoHTTPSSpec.qualifies d := by
-      show (markOne d).managed = _
-      unfold markOne
-      rw [qualifies_eq_spec d hs.1 hs.2]
-      cases AutoHTTPSSpec.qualifies d <;> simp [(hf d hd).1]
-    show ¬ (hostInScope d.host && bindInScope d.listen && (AutoHTTPSSpec.qualifies d != (observeSite d).managed)) = true
+    have : (observeSite P d).managed = AutoHTTPSSpec.qualifies P d := by
+      show (markOneP P d).managed = _
+      unfold markOneP
+      rw [qualifies_eq_spec P d hs.1 hs.2]
+      cases AutoHTTPSSpec.qualifies P d <;> simp [(hf d hd).1]
+    show ¬ (hostInScope d.host && bindInScope d.listen && (AutoHTTPSSpec.qualifies P d != (observeSite P d).managed)) = true
     rw [this]; simp
-  · show ¬ (hostInScope d.host && bindInScope d.listen && (AutoHTTPSSpec.qualifies d != (observeSite d).managed)) = true
+  · show ¬ (hostInScope d.host && bindInScope d.listen && (AutoHTTPSSpec.qualifies P d != (observeSite P d).managed)) = true
     simp only [hs, Bool.false_and]; simp
 
-theorem chk_managedTLS (ds : List Site) (hf : ∀ d ∈ ds, Fresh d) : (ds.map observeSite).any offManagedTLS = false := by
+theorem chk_managedTLS (hP : P.ok) (ds : List Site) (hf : ∀ d ∈ ds, Fresh d) : (ds.map (observeSite P)).any offManagedTLS = false := by
   rw [List.any_eq_false]
   intro o ho
   obtain ⟨d, hd, rfl⟩ := List.mem_map.mp ho
   unfold offManagedTLS
-  show ¬ ((markOne d).managed && !(stageF (stageE d)).enabled) = true
-  cases hm : (markOne d).managed
+  show ¬ ((markOneP P d).managed && !(stageF P (stageE P d)).enabled) = true
+  cases hm : (markOneP P d).managed
   · simp
-  · rw [managed_site_tls d (hf d hd) hm]; simp
+  · rw [managed_site_tls hP d (hf d hd) hm]; simp
 
-theorem chk_http (ds : List Site) (hf : ∀ d ∈ ds, Fresh d) : (ds.map observeSite).any offHTTP = false := by
+theorem chk_http (ds : List Site) (hf : ∀ d ∈ ds, Fresh d) : (ds.map (observeSite P)).any (offHTTP P) = false := by
   rw [List.any_eq_false]
   intro o ho
   obtain ⟨d, hd, rfl⟩ := List.mem_map.mp ho
   unfold offHTTP
-  show ¬ (declaredHTTP d.scheme d.port && (stageF (stageE d)).enabled) = true
-  cases hdh : declaredHTTP d.scheme d.port
+  show ¬ (declaredHTTP P d.scheme d.port && (stageF P (stageE P d)).enabled) = true
+  cases hdh : declaredHTTP P d.scheme d.port
   · simp
   · rw [(http_site_no_tls d (hf d hd).1 hdh).2]; simp
 
-theorem getElem?_stageE (ds : List Site) (k : Nat) (c : Site) (h : (ds.map stageE)[k]? = some c) :
-    ∃ d, ds[k]? = some d ∧ d ∈ ds ∧ c = stageE d := by
+theorem getElem?_stageE (ds : List Site) (k : Nat) (c : Site) (h : (ds.map (stageE P))[k]? = some c) :
+    ∃ d, ds[k]? = some d ∧ d ∈ ds ∧ c = stageE P d := by
   rw [List.getElem?_map] at h
   cases hd : ds[k]? with
   | none => simp [hd] at h
   | some d => simp [hd] at h; exact ⟨d, rfl, List.mem_of_getElem? hd, h.symm⟩
 
-theorem hasPlain_iff (ds : List Site) (h : Bytes) :
-    hasPlainSite (ds.map observeSite) h = true ↔ ¬ NoPlain (ds.map stageE) h := by
+theorem hasPlain_iff (hP : P.ok) (ds : List Site) (h : Bytes) :
+    hasPlainSite P (ds.map (observeSite P)) h = true ↔ ¬ NoPlain P (ds.map (stageE P)) h := by
   unfold hasPlainSite NoPlain
   rw [List.any_eq_true]
   constructor
   · rintro ⟨o, ho, hcond⟩ hnp
     obtain ⟨d, hd, rfl⟩ := List.mem_map.mp ho
     simp only [Bool.and_eq_true, beq_iff_eq] at hcond
-    have h80 : (stageE d).port = b!"80" := by
-      have := observe_fPort80 d; rw [beq_iff_eq.mpr hcond.2] at this; exact beq_iff_eq.mp this.symm
-    exact hnp (stageE d) (List.mem_map.mpr ⟨d, hd, rfl⟩) ⟨by rw [← observe_fHost]; exact hcond.1, by rw [tables_ports.1]; exact h80⟩
+    have h80 : (stageE P d).port = P.http := by
+      have := observe_fPortHTTP hP d; rw [beq_iff_eq.mpr hcond.2] at this; exact beq_iff_eq.mp this.symm
+    exact hnp (stageE P d) (List.mem_map.mpr ⟨d, hd, rfl⟩) ⟨by rw [← observe_fHost]; exact hcond.1, h80⟩
   · intro hnp
     simp only [Classical.not_forall, Classical.not_not] at hnp
     obtain ⟨c, hc, hh, hp⟩ := hnp
     obtain ⟨d, hd, rfl⟩ := List.mem_map.mp hc
-    refine ⟨observeSite d, List.mem_map.mpr ⟨d, hd, rfl⟩, ?_⟩
-    rw [tables_ports.1] at hp
+    refine ⟨observeSite P d, List.mem_map.mpr ⟨d, hd, rfl⟩, ?_⟩
     simp only [Bool.and_eq_true, beq_iff_eq]
     refine ⟨by rw [observe_fHost]; exact hh, ?_⟩
-    have := observe_fPort80 d; rw [beq_iff_eq.mpr hp] at this; exact beq_iff_eq.mp this
+    have := observe_fPortHTTP hP d; rw [beq_iff_eq.mpr hp] at this; exact beq_iff_eq.mp this
 
-theorem chk_redirects (ds : List Site) (hf : ∀ d ∈ ds, Fresh d) :
-    let R := redirsGo (ds.map stageE) (ds.map stageE) 0 []
-    let os := ds.map observeSite
+theorem chk_redirects (hP : P.ok) (ds : List Site) (hf : ∀ d ∈ ds, Fresh d) :
+    let R := redirsGo P (ds.map (stageE P)) (ds.map (stageE P)) 0 []
+    let os := ds.map (observeSite P)
     let rs := R.map observeRedirect
-    rs.any offPlain = false ∧ rs.any (fun r => hasPlainSite os r.fHost) = false ∧
-    rs.any (fun r => !os.any (targetsSite r)) = false ∧ (rs.map (·.fHost)).Nodup := by
+    rs.any (offPlain P) = false ∧ rs.any (fun r => hasPlainSite P os r.fHost) = false ∧
+    rs.any (fun r => !os.any (targetsSite P r)) = false ∧ (rs.map (·.fHost)).Nodup := by
   intro R os rs
-  have inv := inv_final (ds.map stageE)
+  have inv := inv_final hP (ds.map (stageE P))
   refine ⟨?_, ?_, ?_, ?_⟩
   · rw [List.any_eq_false]
     intro r hr
     obtain ⟨x, hx, rfl⟩ := List.mem_map.mp hr
     obtain ⟨k, c, _, _, _, hrc, _⟩ := inv.sound x hx
     subst hrc
-    unfold offPlain observeRedirect redirPlaintextHost
-    simp only [Bool.false_or]
-    rw [tables_ports.1]; simp
+    unfold offPlain observeRedirect redirPlaintextHostP
+    simp
   · rw [List.any_eq_false]
     intro r hr
     obtain ⟨x, hx, rfl⟩ := List.mem_map.mp hr
     obtain ⟨k, c, _, _, _, hrc, hnp⟩ := inv.sound x hx
     subst hrc
     intro hplain
-    exact (hasPlain_iff ds _).mp hplain hnp
+    exact (hasPlain_iff hP ds _).mp hplain hnp
   · rw [List.any_eq_false]
     intro r hr
     obtain ⟨x, hx, rfl⟩ := List.mem_map.mp hr
@@ -585,14 +605,14 @@ theorem chk_redirects (ds : List Site) (hf : ∀ d ∈ ds, Fresh d) :
     obtain ⟨d, _, hd, rfl⟩ := getElem?_stageE ds k c hck
     simp only [Bool.not_eq_true', Bool.not_eq_false]
     rw [List.any_eq_true]
-    refine ⟨observeSite d, List.mem_map.mpr ⟨d, hd, rfl⟩, ?_⟩
+    refine ⟨observeSite P d, List.mem_map.mpr ⟨d, hd, rfl⟩, ?_⟩
     unfold targetsSite
-    have hman : (stageE d).hasManager = true := by
+    have hman : (stageE P d).hasManager = true := by
       unfold stageE; rw [(enableOne_fields _).2.2.2.2.2.1, (markOne_fields d).2.2.2.2.2.2.2.2.1]; exact (hf d hd).2.1
-    obtain ⟨t, ht, hok⟩ := redirect_target_port (stageE d) hman hw
-    have h1 : (observeRedirect (redirPlaintextHost (stageE d))).target = some t := ht
-    have h2 : (observeSite d).fPort = (stageF (stageE d)).port := rfl
-    have h3 : (observeRedirect (redirPlaintextHost (stageE d))).fHost = (stageE d).host := rfl
+    obtain ⟨t, ht, hok⟩ := redirect_target_port hP (stageE P d) hman hw
+    have h1 : (observeRedirect (redirPlaintextHostP P (stageE P d))).target = some t := ht
+    have h2 : (observeSite P d).fPort = (stageF P (stageE P d)).port := rfl
+    have h3 : (observeRedirect (redirPlaintextHostP P (stageE P d))).fHost = (stageE P d).host := rfl
     rw [h1, h2, h3, observe_fHost, wants_eq, hw]
     simp [hok]
   · have : rs.map (·.fHost) = R.map (·.host) := by
@@ -601,44 +621,44 @@ theorem chk_redirects (ds : List Site) (hf : ∀ d ∈ ds, Fresh d) :
     rw [this]; exact inv.nodup
 
 /-- completeness of redirect synthesis: no HTTPS site that wants a redirect and has no plain site of its host is left uncovered -/
-theorem chk_cover (ds : List Site) :
-    (ds.map observeSite).any (offCover (ds.map observeSite) ((redirsGo (ds.map stageE) (ds.map stageE) 0 []).map observeRedirect)) = false := by
-  have inv := inv_final (ds.map stageE)
+theorem chk_cover (hP : P.ok) (ds : List Site) :
+    (ds.map (observeSite P)).any (offCover P (ds.map (observeSite P)) ((redirsGo P (ds.map (stageE P)) (ds.map (stageE P)) 0 []).map observeRedirect)) = false := by
+  have inv := inv_final hP (ds.map (stageE P))
   rw [List.any_eq_false]
   intro o hmem hpred
   obtain ⟨k, hk, hko⟩ := List.getElem_of_mem hmem
   have hk' : k < ds.length := by simpa using hk
-  have hod : o = observeSite ds[k] := by rw [← hko]; simp
+  have hod : o = observeSite P ds[k] := by rw [← hko]; simp
   subst hod
   unfold offCover at hpred
   simp only [Bool.and_eq_true, Bool.not_eq_true'] at hpred
   obtain ⟨⟨hw, hnoplain⟩, hnocover⟩ := hpred
   rw [wants_eq] at hw
-  have hnp : NoPlain (ds.map stageE) (stageE ds[k]).host := by
-    have := (hasPlain_iff ds (observeSite ds[k]).fHost)
+  have hnp : NoPlain P (ds.map (stageE P)) (stageE P ds[k]).host := by
+    have := (hasPlain_iff hP ds (observeSite P ds[k]).fHost)
     rw [hnoplain] at this
     simp only [Bool.false_eq_true, false_iff, Classical.not_not] at this
     rw [observe_fHost] at this; exact this
-  have hek : (ds.map stageE)[k]? = some (stageE ds[k]) := by
+  have hek : (ds.map (stageE P))[k]? = some (stageE P ds[k]) := by
     rw [List.getElem?_map, List.getElem?_eq_getElem hk']; rfl
-  rcases inv.complete k (stageE ds[k]) (by simpa using hk') hek hw hnp with hcov | hpend
+  rcases inv.complete k (stageE P ds[k]) (by simpa using hk') hek hw hnp with hcov | hpend
   · obtain ⟨r, hr, hrh⟩ := hcov
     rw [List.any_eq_false] at hnocover
     have := hnocover (observeRedirect r) (List.mem_map.mpr ⟨r, hr, rfl⟩)
     apply this
-    show (r.host == (observeSite ds[k]).fHost) = true
+    show (r.host == (observeSite P ds[k]).fHost) = true
     rw [observe_fHost, hrh]; simp
   · obtain ⟨j, cj, hj, hcj, _⟩ := hpend
     rw [List.getElem?_eq_none (by simpa using hj)] at hcj
     cases hcj
 
-/-- THE SITE-SET VERDICT of the model: "ok". -/
-theorem sites_verdict (ds : List Site) (hf : ∀ d ∈ ds, Fresh d) :
-    sitesVerdict (ds.map observeSite) ((redirsGo (ds.map stageE) (ds.map stageE) 0 []).map observeRedirect) = "ok" := by
-  obtain ⟨h1, h2, h3, h4⟩ := chk_redirects ds hf
+/-- THE SITE-SET VERDICT of the model: "ok" — for every pair of configured ports. -/
+theorem sites_verdict (hP : P.ok) (ds : List Site) (hf : ∀ d ∈ ds, Fresh d) :
+    sitesVerdict P (ds.map (observeSite P)) ((redirsGo P (ds.map (stageE P)) (ds.map (stageE P)) 0 []).map observeRedirect) = "ok" := by
+  obtain ⟨h1, h2, h3, h4⟩ := chk_redirects hP ds hf
   unfold sitesVerdict
   rw [chk_qualify ds hf]
-  simp only [chk_managedTLS ds hf, chk_http ds hf, h1, h2, h3, h4, chk_cover ds, Bool.false_eq_true, if_false, not_true_eq_false]
+  simp only [chk_managedTLS hP ds hf, chk_http ds hf, h1, h2, h3, h4, chk_cover hP ds, Bool.false_eq_true, if_false, not_true_eq_false]
   simp
 
 end Casket.AutoHTTPS
